@@ -76,7 +76,7 @@ func checkC08(c *Ctx) {
 	c.Rule("C08.err", "every error produced while building the code model (packages deps and basicblock) is returned to the caller")
 	c.Rule("C08.jumps", "deps.jumps: targets are the Possibilities of the value of each RegStore to the instruction pointer, constant-folded before being inspected; a target is dropped only on the edge where it folded to a constant equal to ins.End(); the result is resliced to the write index")
 	c.Rule("C08.iter", "no loop of packages deps/basicblock whose trip count is fixed on entry (range, hoisted length) walks the contents of a slice variable while its body inserts into that same variable: the elements moved or added beyond the fixed count would never be visited")
-	c.Rule("C08.split", "basicblock: Parse chains sort -> pipelineApply(splitByAddress, splitByJumps) -> splitByJumpTargets -> split(entrypoint) and returns the resulting blocks; splitByAddress cuts exactly where End() != next.Begin(); splitByJumps cuts after an instruction with jump targets; splitByJumpTargets splits at every constant target that fits an address; block.split rejects addresses outside the block or not at an instruction start")
+	c.Rule("C08.split", "basicblock: Parse chains sort -> pipelineApply(splitByAddress, splitByJumps) -> splitByJumpTargets -> split(entrypoint) and returns the resulting blocks; splitByAddress cuts exactly where End() != next.Begin(); splitByJumps cuts after an instruction with jump targets; splitByJumpTargets splits at every constant target that fits an address (the split call is under no condition other than is-a-constant, fits, and the loops over blocks, instructions and jumps); block.split rejects addresses outside the block or not at an instruction start")
 	n := checkErrflow(c, "C08.err", []string{pkgDeps, pkgBB}, nil)
 	c.RequireCount("C08.err calls returning an error", n, 6)
 
@@ -278,13 +278,29 @@ func checkC08(c *Ctx) {
 			// the address is what ConstUint made of a constant, and the split is
 			// conditional on both "is a constant" and "fits an address" (written in
 			// place or in a helper predicate)
+			headers := map[*ssa.BasicBlock]bool{}
+			for _, l := range RangeLoops(st) {
+				headers[l.Header] = true
+			}
+			foreign := ""
 			for _, gd := range GuardsOf(cs.Block()) {
+				mine := false
 				if DependsOnVia(nil, gd.Cond, enterBB, isConstOK, nil) || helperTrueImplies(gd.Cond, enterBB, isConstOK) {
-					constOK = true
+					constOK, mine = true, true
 				}
 				if DependsOnVia(nil, gd.Cond, enterBB, isFit(1), nil) {
-					fitOK = true
+					fitOK, mine = true, true
 				}
+				// any other condition on the way (the loops' own apart) lets a constant
+				// target go without a cut
+				if !mine && !headers[gd.If.Block()] {
+					foreign = c.Prog.Pos(gd.If.Pos())
+				}
+			}
+			if foreign != "" {
+				c.Fail("C08.split", ShortName(st)+"/split-at-every-constant-target", c.Prog.Pos(cs.Pos()), "the split is skipped under a further condition ("+foreign+"): a constant jump target may stay inside a block")
+			} else {
+				c.Pass("C08.split", ShortName(st)+"/split-at-every-constant-target", c.Prog.Pos(cs.Pos()), "")
 			}
 			if !DependsOnVia(nil, addr, enterBB, isFit(0), nil) {
 				fitOK = false
@@ -608,8 +624,13 @@ func checkC26(c *Ctx) {
 	c.Rule("C26.err", "error propagation: every call that returns an error in cmd/mltwist, elf, parser, deps and basicblock is either returned (possibly wrapped) or checked against nil with the failure branch returning a non-nil error / terminating")
 	c.Rule("C26.exit", "main prints a non-nil error of run() to os.Stderr and calls os.Exit with a non-zero constant; run() rejects argument vectors whose length is not 2 before touching the file")
 	c.Rule("C26.alloc", "an allocation whose size derives from an ELF header field (Prog.Memsz/Filesz, Section.Size) is dominated by an upper bound on that size")
-	c.Rule("C26.pre", "length preconditions: a byte-slice length that a function relies on without checking (constant index/reslice, panic guarded by len(p) < k, or a callee's such need) is established at every call site; functions reached through an interface with a slice of any length (riscv Parser.Parse) rely on nothing unchecked")
-	np := checkLenPre(c, "C26.pre", []string{pkgRiscv, pkgParser, pkgElf, pkgDeps, pkgBB, "internal/opcode"})
+	c.Rule("C26.pre", "length preconditions: a slice length that a function relies on without checking (constant index/reslice, panic guarded by len(p) < k, or a callee's such need) is established at every call site; functions reached through an interface (riscv Parser.Parse) or used as a function value (the cutters handed to pipelineApply) with a slice of any length rely on nothing unchecked")
+	c.Rule("C26.index", "in the packages that load, decode and model the program (cmd/mltwist, elf, parser, riscv, opcode, deps, basicblock, expr, exprtools, exprtransform, expreval, state, memory, interval) a fixed-size array indexed with a computed value is indexed below its length: the bound follows from the index's type, a mask / remainder / shift by a constant, being the key of a range over an array of that length, or a guarding comparison")
+	ni := checkArrayIndexBounds(c, "C26.index", []string{"cmd/mltwist", pkgElf, pkgParser, pkgRiscv, "internal/opcode", pkgDeps, pkgBB, "pkg/expr", "pkg/expr/exprtools", "internal/exprtransform", pkgEval, pkgState, pkgMemory, pkgInterval})
+	c.Saw("array_index_sites", fmt.Sprintf("%d", ni))
+	np := checkLenPre(c, "C26.pre", []string{pkgRiscv, pkgParser, pkgElf, pkgDeps, pkgBB, "internal/opcode"}, map[string]string{
+		"internal/deps.NewCode/newBlock(arg1)#1": "the sequences are the blocks basicblock.Parse returns, and its cutters only produce non-empty pieces (seq[begin:i+1] with i >= begin, the tail only when begin < end; block.split rejects an address at a block's first instruction and addresses that are not instruction starts)",
+	})
 	c.RequireCount("C26.pre call sites and entry points with a length precondition", np, 2)
 	exc := map[string]string{
 		"cmd/mltwist.parseElf/(*internal/elf.Parser).Close#1": "deferred Close of a file that was only read: its error cannot change the loaded image",
